@@ -1771,23 +1771,43 @@ func (e *Engine) keyEq(a, b Value) bool {
 }
 
 func (e *Engine) lookup(st *State, f *Frame, x *ssa.Lookup) Value {
+	if sv, isStr := e.val(st, f, x.X).(StringV); isStr { // s[i] on a string operand
+		idx := SExt(64, e.val(st, f, x.Index).(*Term))
+		e.require(st, Cmp("bvult", idx, sv.Len), "index", "string index out of range", x)
+		return e.obj(st, sv.Obj).Arr.Read(BinBV("bvadd", sv.Off, idx))
+	}
 	m := e.val(st, f, x.X).(MapV)
 	k := e.val(st, f, x.Index)
 	vt := x.X.Type().Underlying().(*types.Map).Elem()
-	var res Value = zero(vt)
-	found := false
+	result := func(v Value, found bool) Value {
+		if x.CommaOk {
+			return TupleV{v, BoolC(found)}
+		}
+		return v
+	}
 	if m.Obj != 0 {
 		for _, en := range e.obj(st, m.Obj).Ents {
-			if e.keyEq(en.K, k) {
-				res, found = en.V, true
-				break
+			c := e.keyEqTerm(st, en.K, k)
+			if c.IsTrue() {
+				return result(en.V, true)
 			}
+			if c.IsFalse() {
+				continue
+			}
+			// symbolic key: fork a state in which the key equals this entry's key
+			if r, mdl := e.check(append(append([]*Term(nil), st.pc...), c)); r != RUnsat {
+				alt := st.clone()
+				af := alt.frames[len(alt.frames)-1]
+				af.env[x] = result(en.V, true)
+				alt.pc = append(alt.pc, c)
+				alt.model = mdl
+				e.extraForks = append(e.extraForks, alt)
+				e.Forks++
+			}
+			e.extendPC(st, Not(c))
 		}
 	}
-	if x.CommaOk {
-		return TupleV{res, BoolC(found)}
-	}
-	return res
+	return result(zero(vt), false)
 }
 
 // ---- calls ----
